@@ -9,6 +9,8 @@ mod c03;
 mod btree_engine;
 mod c28;
 mod c29;
+mod c20;
+mod c41;
 mod c05;
 mod c26;
 mod c27;
@@ -60,6 +62,7 @@ fn main() {
     };
     let code = match prop {
         "C04" => histchecks::c04(tier, replay.clone()),
+        "C09" => histchecks::c09(tier, replay.clone()),
         "C06" => histchecks::c06(tier, replay.clone()),
         "C07" => histchecks::c07(tier, replay.clone()),
         "C31" => c31::main(tier, replay.clone()),
@@ -68,6 +71,8 @@ fn main() {
         "C03" => c03::main(tier, replay.clone()),
         "C28" => c28::main(tier, replay.clone()),
         "C29" => c29::main(tier, replay.clone()),
+        "C20" => c20::main(tier, replay.clone()),
+        "C41" => c41::main(tier, replay.clone()),
         "C05" => c05::main(tier, replay.clone()),
         "C26" => c26::main(tier, replay.clone()),
         "C27" => c27::main(tier, replay.clone()),
